@@ -573,7 +573,7 @@ def _twin_surrogates_r(int n_surrogates, int N, int dim, twins,
             (n_surrogates, N, dim), dtype=DFIELD)
 
     # Initialize random number generator
-    random.seed(datetime.now())
+    random.seed()
 
     for i in range(n_surrogates):
         # Randomly choose a starting point in the original trajectory
